@@ -252,6 +252,18 @@ package database
 //@   invariant cmdToIdx != nil && fresh(cmdToIdx) && (forall c *Command :: (c in cmdToIdx) ==> cmdToIdx[c] >= 0)
 //@ loop 2
 //@   invariant forall k int :: 0 <= k && k < len(results) ==> results[k].Command == old(results[k].Command) && results[k].Score >= 0.0
+//@   invariant[C19.only-raises-bounded] forall k int :: 0 <= k && k < len(results) ==> results[k].Score >= old(results[k].Score) && results[k].Score <= old(results[k].Score) * 1.3
+//@   invariant forall k int :: $i <= k && k < len(results) ==> results[k].Score == old(results[k].Score)
+//@   invariant forall k int :: 0 <= k && k < len(semanticScores) ==> -1.0 <= semanticScores[k] && semanticScores[k] <= 1.0
+
+//@ func (*Database).SemanticScores
+//@   modifies nothing
+//@   ensures[C19.db-scores] fresh(result) && (forall k int :: 0 <= k && k < len(result) ==> -1.0 <= result[k] && result[k] <= 1.0)
+
+//@ func (*Database).LoadEmbeddings
+//@   modifies db.*
+//@   ensures[C19.load-never-fails] result == nil && db.Commands == old(db.Commands) && db.uIndex == old(db.uIndex) && db.tfidf == old(db.tfidf) && db.cmdIndex == old(db.cmdIndex)
+//@   ensures[C19.load-wf] db.embeddingIndex != nil && db.embeddingIndex != old(db.embeddingIndex) ==> embedding.wfEmb(db.embeddingIndex)
 
 //@ func (*Database).applyPostScoringBoosts
 //@   requires resultsOK(db, results) && sortedDesc(results) && elig(results)
@@ -259,6 +271,8 @@ package database
 //@   modifies results[*]
 //@   ensures[C01.post-ok] resultsOK(db, result) && sortedDesc(result) && elig(result)
 //@   ensures[C07.post-nonempty] len(result) <= len(results) && (len(results) > 0 ==> len(result) > 0)
+//@   ensures[C19.optional] db.embeddingIndex == nil ==> calls("(*database.Database).applySemanticBoost") == 0
+//@   ensures[C19.nlp-off-untouched] !options.UseNLP && db.embeddingIndex == nil ==> result == results && calls("(*database.Database).rerankWithNLP") == 0 && calls("(*database.Database).cascadingBoost") == 0
 
 // ---------------------------------------------------------------------------
 // Typo fallback
